@@ -850,3 +850,165 @@ Example C03_maze_nonvacuous :
    cell_get (g_cells (ns_grid (m_sim (snd r)))) (1, 1) = [0%nat; 2%nat] /\
    chk_nav_recs mz_cf [mz_d; mz_d] mz_calls (map enc_nrec (fst r)) = 0).
 Proof. exact mz_nonvacuous. Qed.
+
+(* =====================================================================================================
+   Fifth end-to-end instance (supports C01, C03, C08, C12, C16): PacmanSimSimple of
+   abmarl/examples/sim/pacman.py -- PositionState + OrientationState + HealthState, the
+   AbsoluteEncodingObserver, the DriftMoveActor for pacman and for five baddies moved by a script inside
+   `step`, the corridor teleportation (9,0) <-> (9,18) by Grid.remove / Grid.place, food eaten and pacman
+   killed by overlap (health := 0, Grid.remove) outside any attack actor.
+   Grid/PacmanSim.v: `pacman_sim cf : simulation pstate (list (list Z)) unit Z` (pacman and the baddies
+   are learning agents; walls and food are not).  The model is the step with the repair of
+   findings/C03-pacman-blocked-teleport; `pacman_sim_prefix` is the tree as found.  Vocabulary:
+     ginv           the C03 invariant itself (pacman and eaten food have health 0, are inactive and in no cell)
+     pac_ok cf      the agent listed as 'pacman' is a PacmanAgent
+   ===================================================================================================== *)
+From Abm Require Import Grid.PacmanSim Proofs.PacmanSim_proofs.
+
+(* PacmanSimSimple.step keeps the invariant: every action dictionary (any keys, any move values, a dead
+   pacman, missing baddies), every state, every arm including the ones that raise -- the drift moves, the
+   teleports of pacman and of the baddies, the eaten food, the direct kill *)
+Theorem C03_pacman_step_ginv : forall cf st acts,
+  ginv (ps_grid st) -> ginv (ps_grid (pm_step cf st acts)).
+Proof. exact pm_step_ginv. Qed.
+Print Assumptions C03_pacman_step_ginv.
+
+(* the repaired teleport alone *)
+Theorem C03_pacman_teleport_ginv : forall g i, ginv g -> ginv (tres_grid (teleport true g i)).
+Proof. exact teleport_inv. Qed.
+Print Assumptions C03_pacman_teleport_ginv.
+
+(* getters touch neither grid, start-state stream nor step_count *)
+Theorem C03_pacman_getters_pure : forall f cf s s',
+  greach (pacman_sim_gen f cf) s s' ->
+  ps_grid s' = ps_grid s /\ ps_starts s' = ps_starts s /\ ps_count s' = ps_count s.
+Proof. exact p_greach_frame. Qed.
+Print Assumptions C03_pacman_getters_pure.
+
+Theorem C03_pacman_done_stable : forall cf, done_stable (pacman_sim cf).
+Proof. exact (pacman_done_stable true). Qed.
+Print Assumptions C03_pacman_done_stable.
+
+Theorem C03_pacman_reward_read_once : forall cf st i x,
+  p_learning cf i = true -> nth_error (ps_rew st) i = Some x ->
+  fst (pm_reward cf st i) = x /\
+  nth_error (ps_rew (snd (pm_reward cf st i))) i = Some 0 /\
+  (forall j, j <> i -> nth_error (ps_rew (snd (pm_reward cf st i))) j = nth_error (ps_rew st) j) /\
+  ps_bad (snd (pm_reward cf st i)) = ps_bad st.
+Proof. exact pm_reward_read_once. Qed.
+Print Assumptions C03_pacman_reward_read_once.
+
+(* the invariant holds in every simulation state any manager reaches by ANY call list, in or out of
+   protocol (steps after pacman's death, without pacman's key, for walls ...) *)
+Theorem C03_pacman_ginv_reachable : forall cf k s0 cs,
+  ginv (ps_grid s0) -> Forall ginv (ps_starts s0) ->
+  ginv (ps_grid (m_sim (snd (run (pacman_sim cf) k (init s0) cs)))) /\
+  forall e, In e (trace (pacman_sim cf) k (init s0) Fresh cs) ->
+    ginv (ps_grid (m_sim (te_pre e))) /\ ginv (ps_grid (m_sim (te_post e))).
+Proof. exact pacman_ginv_reachable. Qed.
+Print Assumptions C03_pacman_ginv_reachable.
+
+(* C01 along in-protocol histories under the all-step manager; walls and food are in done_agents from
+   the first reset on *)
+Theorem C03_pacman_invariants_all : forall cf s0 cs,
+  ginv (ps_grid s0) -> Forall ginv (ps_starts s0) ->
+  in_protocol (trace (pacman_sim cf) MAll (init s0) Fresh cs) ->
+  forall e, In e (trace (pacman_sim cf) MAll (init s0) Fresh cs) ->
+    (te_ph e <> Fresh -> incl (nonlearning (pacman_sim cf)) (m_done (te_pre e))) /\
+    ginv (ps_grid (m_sim (te_pre e))) /\ ginv (ps_grid (m_sim (te_post e))) /\
+    do_call (pacman_sim cf) MAll (te_pre e) (te_call e) = (te_resp e, te_post e) /\
+    NoDup (ep_dones (trace (pacman_sim cf) MAll (init s0) Fresh cs) []).
+Proof. exact pacman_invariants_all. Qed.
+Print Assumptions C03_pacman_invariants_all.
+
+Theorem C03_pacman_done_at_most_once_turn : forall cf s0 cs,
+  in_protocol (trace (pacman_sim cf) MTurn (init s0) Fresh cs) ->
+  NoDup (ep_dones (trace (pacman_sim cf) MTurn (init s0) Fresh cs) []).
+Proof. exact pacman_done_once_turn. Qed.
+Print Assumptions C03_pacman_done_at_most_once_turn.
+
+(* manager o simulation: every done flag of an accepted all-step step, and `__all__` unless everybody has
+   been reported, is get_all_done of the state the call leaves: pacman inactive, or no FoodAgent listed *)
+Theorem C03_pacman_done_entries_all : forall cf m acts sh o m',
+  all_step (pacman_sim cf) m acts sh = (ROut o, m') ->
+  (forall a b, In (a, b) (o_done o) -> b = pm_all cf (m_sim m')) /\
+  o_all o = pm_all cf (m_sim m') || all_in (pacman_sim cf) (m_done m').
+Proof. exact pacman_all_done_entries. Qed.
+Print Assumptions C03_pacman_done_entries_all.
+
+(* C16 and C08 over the pacman simulation *)
+Theorem C03_pacman_trainer_never_fails :
+  forall PS cf pmap (pol_act : PS -> nat -> list (list Z) -> Z * PS) pol_reset shuf h k m ps,
+  pac_ok cf -> k = MAll \/ k = MTurn ->
+  er_status (generate_episode (pacman_sim cf) pmap pol_act pol_reset shuf h k m ps) = EOk /\
+  exists obs, er_reset (generate_episode (pacman_sim cf) pmap pol_act pol_reset shuf h k m ps) = RObs obs.
+Proof. exact pacman_trainer_never_fails. Qed.
+Print Assumptions C03_pacman_trainer_never_fails.
+
+Theorem C03_pacman_episode_indistinguishable : forall cf k m1 m2 cs,
+  pac_ok cf -> k <> MTurnPrefix ->
+  pm_reset cf (m_sim m1) = pm_reset cf (m_sim m2) ->
+  fst (run (pacman_sim cf) k m1 (CReset :: cs)) = fst (run (pacman_sim cf) k m2 (CReset :: cs)).
+Proof. exact pacman_episode_indistinguishable. Qed.
+Print Assumptions C03_pacman_episode_indistinguishable.
+
+(* the recorded run is the managers' run *)
+Theorem C03_pacman_run_snap_is_run : forall Sm k cs m,
+  map fst (fst (prun_snap Sm k m cs)) = fst (run Sm k m cs) /\
+  snd (prun_snap Sm k m cs) = snd (run Sm k m cs).
+Proof. exact prun_snap_run. Qed.
+Print Assumptions C03_pacman_run_snap_is_run.
+
+(* the snapshot clauses (301-304) of the component's checker hold of every record of the model's run:
+   every recorded grid satisfies ginv, for every manager kind and call list.  (A full chk_model -- also
+   the step_count clauses 2612 / 2613 and the shared-cell clause 2611 on the model's own records -- is not
+   proved; those clauses are tied to the model by the runs.) *)
+Theorem C03_pacman_chk_model_partial : forall cf k cs m,
+  ginv (ps_grid (m_sim m)) -> Forall ginv (ps_starts (m_sim m)) ->
+  Forall (fun rg => ginv (fst (snd rg))) (fst (prun_snap (pacman_sim cf) k m cs)).
+Proof. intros cf k cs m H1 H2. apply prun_snap_inv. split; assumption. Qed.
+Print Assumptions C03_pacman_chk_model_partial.
+
+(* the tree as found (findings/C03-pacman-blocked-teleport): the teleport ignores the result of Grid.place.
+   A wall on the tunnel end (9,18), pacman walks from (9,1) to (9,0): removed from the grid, placed nowhere,
+   still active (clause 303 of the invariant test on the snapshot), the next step raises; the repaired step
+   leaves pacman on (9,0). *)
+Theorem C03_pacman_blocked_teleport_prefix_refuted :
+  exists cf s0 cs,
+    pac_ok cf /\ ps_inv s0 /\ ps_bad s0 = false /\
+    in_protocol (trace (pacman_sim cf) MAll (init s0) Fresh cs) /\
+    (let m := snd (run (pacman_sim_prefix cf) MAll (init s0) cs) in
+     ginvb (ps_grid (m_sim m)) = 303 /\ ps_bad (m_sim m) = false /\
+     option_map (fun a => (a_pos a, a_active a)) (agent (ps_grid (m_sim m)) 0) = Some (Some (9, 0), true) /\
+     cell_get (g_cells (ps_grid (m_sim m))) (9, 0) = [] /\
+     ps_bad (m_sim (snd (run (pacman_sim_prefix cf) MAll (init s0) (cs ++ [px_step 0])))) = true) /\
+    (let m := snd (run (pacman_sim cf) MAll (init s0) (cs ++ [px_step 0])) in
+     ginvb (ps_grid (m_sim m)) = 0 /\ ps_bad (m_sim m) = false /\
+     cell_get (g_cells (ps_grid (m_sim m))) (9, 0) = [0%nat]).
+Proof. exact blocked_teleport_prefix_refuted. Qed.
+Print Assumptions C03_pacman_blocked_teleport_prefix_refuted.
+
+(* non-vacuity: a legal 10 x 19 start state; pacman eats a pellet (0.10 - 0.01), walks into the tunnel end
+   (9,0) and comes out at (9,18), drifts into baddie_2 and is eaten (-1 - 0.01): inactive, health 0, in no
+   cell, every agent reported done, step_count stays at 3; the eaten pellet has health 0 and is in no cell *)
+Example C03_pacman_nonvacuous :
+  let s0 := px_s0 (9, 3) (5, 5) [3; 4; 4] in
+  ps_inv s0 /\ pac_ok px_cf /\
+  in_protocol (trace (pacman_sim px_cf) MAll (init s0) Fresh px_calls) /\
+  (let r := prun_snap (pacman_sim px_cf) MAll (init s0) px_calls in
+   map (fun x => match fst x with
+                 | ROut o => (assoc (o_rew o) 0, assoc (o_done o) 0, o_all o)
+                 | _ => (None, None, false) end) (fst r)
+     = [(None, None, false); (Some 9, Some false, false); (Some (-1), Some false, false);
+        (Some (-1), Some false, false); (Some (-101), Some true, true)] /\
+   map (fun x => (option_map (fun a => (a_pos a, a_active a, a_health a)) (agent (fst (snd x)) 0), snd (snd x)))
+       (fst r)
+     = [(Some (Some (9, 3), true, HD), 0); (Some (Some (9, 2), true, HD), 1); (Some (Some (9, 1), true, HD), 2);
+        (Some (Some (9, 18), true, HD), 3); (Some (Some (9, 17), false, 0), 3)] /\
+   map (fun x => ginvb (fst (snd x))) (fst r) = [0; 0; 0; 0; 0] /\
+   ps_bad (m_sim (snd r)) = false /\
+   option_map (fun a => (a_active a, a_health a)) (agent (ps_grid (m_sim (snd r))) 1) = Some (false, 0) /\
+   cell_get (g_cells (ps_grid (m_sim (snd r)))) (9, 2) = [] /\
+   cell_get (g_cells (ps_grid (m_sim (snd r)))) (9, 17) = [4%nat] /\
+   length (m_done (snd r)) = 8%nat).
+Proof. exact px_nonvacuous. Qed.
